@@ -480,6 +480,9 @@ func (ft *funcTr) failStmt(s ast.Stmt, m mode, ind string) string {
 	}
 	c := ast.Unparen(s.(*ast.ExprStmt).X).(*ast.CallExpr)
 	for _, a := range c.Args {
+		if ft.segPureFieldRead(a) { // segfail.go
+			continue
+		}
 		if !ft.pureExpr(a) {
 			t.fail(a, "argument of the no-return function %s that can panic or has an effect", t.noReturnCall(s))
 		}
@@ -578,6 +581,9 @@ func (ft *funcTr) wrapRet(val string) string {
 	}
 	if ft.t.cfg.StatePassing {
 		return ft.stateReturn(val) // state.go
+	}
+	if ft.segState() && ft.fails && ft.t.cfg.FailMsgs {
+		return "(DoneM " + ft.stateReturn(val) + ")" // segfail.go: state and no-return calls
 	}
 	if ft.segState() {
 		return ft.stateReturn(val) // segstate.go
@@ -816,6 +822,9 @@ func (t *translator) refMapElem(T types.Type) types.Type {
 func (ft *funcTr) refMapIndex(x *ast.IndexExpr) ([]pre, string) {
 	t := ft.t
 	XT := t.info.Types[x.X].Type
+	if p, v, ok := ft.refMapLookup(x); ok { // segfail.go: v, ok := m[k]
+		return p, v
+	}
 	if tvx, ok := t.info.Types[x]; ok {
 		if _, isTuple := tvx.Type.(*types.Tuple); isTuple {
 			t.fail(x, "map index with the second result (v, ok = m[k])")
@@ -943,6 +952,9 @@ func (t *translator) checkMapFields(s Struct, named *types.Named, ps *types.Stru
 			case *ast.KeyValueExpr:
 				if id, ok := x.Key.(*ast.Ident); ok {
 					if v, ok := t.info.Uses[id].(*types.Var); ok && fields[v] {
+						if t.mapFieldMadeInLiteral(x) { // segfail.go: f: make(...)
+							return true
+						}
 						t.fail(x, "field %s (a map that is written) is set in a struct literal", id.Name)
 					}
 				}
@@ -977,6 +989,9 @@ func (t *translator) checkMapFields(s Struct, named *types.Named, ps *types.Stru
 						}
 					}
 				}
+			}
+			if k >= 0 && t.mapFieldReadOnlyUse(stack[k], use) { // segfail.go: len(x.f), range x.f
+				return true
 			}
 			t.fail(use, "field %s of %s holds a map that is written; here it is used other than by x.f[k], x.f[k] = v and x.f = make(...): it could be shared",
 				use.(*ast.SelectorExpr).Sel.Name, named.Obj().Name())
